@@ -2,7 +2,7 @@
 import ast
 
 from .. import libfacts, util
-from ..interp import Interp, Path, exc_value, is_exc, show, strip_sites, subterms, NONE, REPRESENTATIVES
+from ..interp import Interp, Path, iteration_layers, exc_value, is_exc, show, strip_sites, subterms, NONE, REPRESENTATIVES
 from .. import slots
 from ..report import Undecided
 from . import common
@@ -146,6 +146,21 @@ def supervisor(chk):
             if not (src[0] == "item" and strip_sites(src[1]) == ("call", ("attr", RUNNERS, "values"), (), ())):
                 chk.bad(rule, name, "close-all ranges over %s instead of all runners" % show(src), node=close.node, stmt="aclose-domain")
                 ok = False
+        # the closing order is the launch order: a runner whose aclose() WAITS for its payloads (asyncio) is only
+        # waited for after the others have been told to close (trio) -- see stop_order below
+        lays = iteration_layers(strip_sites(acl[0][1][1][1][1]))[0] if acl and acl[0][1][1][1][0] == "item" else []
+        if any(x in ("reversed", "sorted") for x in lays) and ok:
+            chk.bad(rule, name, "close-all walks the runners in %s order instead of the order they were launched in: the asyncio runner's aclose() waits until every asyncio payload is gone before the trio runner has been told to cancel its payloads" % "/".join(x for x in lays if x in ("reversed", "sorted")), node=close.node, stmt="close-order")
+            ok = False
+            break
+        # the mapping is emptied only after the runners have been closed and joined: while they unwind the runtime is
+        # still `running`, and a registration that finds no runner then is refused with "unknown runner"
+        clears = [i for i, e in enumerate(evs) if (e[0] == "call" and e[1][1] == ("attr", RUNNERS, "clear")) or (e[0] == "store" and e[1] == RUNNERS)]
+        awaits_after = [i for i, e in enumerate(evs) if clears and i > clears[0] and ((e[0] == "call" and e[3]) or e[0] == "await")]
+        if clears and awaits_after and ok:
+            chk.bad(rule, name, "close-all empties the runner mapping BEFORE it has closed and joined the runners: while payloads are still finishing their cleanup the runtime counts as running, so adopt() finds no runner for the flavour and raises RuntimeError('unknown runner') instead of returning None", node=close.node, stmt="mapping-cleared-before-close")
+            ok = False
+            break
         joins = [(i, e) for i, e in enumerate(evs) if e[0] == "call" and e[1][1] in (GATHER, ("glob", "ext:asyncio.wait")) and is_awaited(evs, i)]
         last_acl = max([i for i, e in enumerate(evs) if e[0] == "call" and e[1][1][0] == "attr" and e[1][1][2] == "aclose"] or [-1])
         if not joins or joins[-1][0] < last_acl:
@@ -172,6 +187,59 @@ def supervisor(chk):
             ok = False
     if ok:
         chk.ok(rule, name, "awaits aclose() of every runner in the unfiltered mapping, then a join over all runner tasks", node=close.node)
+
+
+def stop_order(chk):
+    """O2.8: stop() tells the runners to close in launch order, and the launch order puts every runner whose aclose()
+    waits for its payloads (a loop around an await: the asyncio runner) after the coroutine runners whose aclose() only
+    signals (trio).  BaseRunner.stop blocks until aclose() is through: stopping the waiting runner first means the
+    others are not cancelled until ITS payloads are gone -- which never happens when one of them waits for a trio
+    payload to finish."""
+    prog = chk.program
+    rule = "O2.8"
+    meta = prog.cls(META)
+    stop = prog.lookup_method(meta, "stop")
+    RUNNERS = ("attr", SELF, slots.runners_map(prog))
+    ok = True
+    n = 0
+    for o in Interp(prog, stop, unroll=1).run():
+        for e in o.path.events:
+            if e[0] == "call" and e[1][1][0] == "attr" and e[1][1][2] == "stop" and e[1][1][1][0] == "item":
+                n += 1
+                lays, base = iteration_layers(strip_sites(e[1][1][1][1]))
+                if any(x in ("reversed", "sorted") for x in lays) and ok:
+                    chk.bad(rule, stop.qual, "stop() walks the runners in %s order instead of the order they were launched in: the asyncio runner's stop() blocks until every asyncio payload is gone while the trio runner has not been told to cancel yet -- an asyncio payload whose cleanup waits for a trio payload then keeps run() from ever returning" % "/".join(x for x in lays if x in ("reversed", "sorted")), node=stop.node, stmt="stop-order")
+                    ok = False
+    chk.count(n)
+    if n == 0:
+        chk.undecided(rule, stop.qual, "stop() does not walk the runner mapping", node=stop.node)
+        return
+    # launch order = runner_types order: waiting runners last among the coroutine runners
+    rt = meta.class_attrs.get("runner_types")
+    listed = [prog.resolve(meta.module, e) for e in rt.elts] if isinstance(rt, (ast.Tuple, ast.List)) else None
+    if listed is None:
+        chk.undecided(rule, meta.qual, "runner_types is not a literal tuple", node=meta.node)
+        return
+
+    def waits(q):
+        c = prog.classes.get(q)
+        ac = prog.lookup_method(c, "aclose") if c is not None else None
+        if ac is None:
+            return False
+        fns = [ac] + [g for gs in c.methods.values() for g in gs if g.is_async and g is not ac and any(isinstance(x, ast.Attribute) and x.attr == g.name for x in ast.walk(ac.node))]
+        return any(isinstance(w, (ast.While, ast.For, ast.AsyncFor)) and any(isinstance(x, ast.Await) for x in ast.walk(w)) for f in fns for w in ast.walk(f.node))
+
+    def flavour(q):
+        c = prog.classes.get(q)
+        return prog.resolve(c.module, c.class_attrs.get("flavour")) if c is not None else None
+
+    waiting = [i for i, q in enumerate(listed) if waits(q)]
+    signalling = [i for i, q in enumerate(listed) if not waits(q) and flavour(q) in ("ext:trio", "ext:asyncio")]
+    if waiting and signalling and min(waiting) < max(signalling):
+        chk.bad(rule, meta.qual, "runner_types launches (and therefore stops) %s, whose aclose() waits for its payloads, before %s, whose aclose() only signals" % (listed[min(waiting)].split(":")[-1], listed[max(signalling)].split(":")[-1]), node=rt, stmt="launch-order")
+        ok = False
+    if ok:
+        chk.ok(rule, stop.qual, "runners are stopped in launch order; runners whose aclose() waits for payloads (%s) come after those that only signal" % ", ".join(listed[i].split(":")[-1] for i in waiting), node=stop.node)
 
 
 def mapping_cleared(chk, rule):
@@ -694,3 +762,4 @@ def run(chk):
     chk.guard("O2.5", "<thread runner>", thread_runner, chk)
     chk.guard("O2.6", META + ".stop", stop_chain, chk)
     chk.guard("O2.7", "<runners>", aclose_wakes_manage, chk, "O2.7")
+    chk.guard("O2.8", META + ".stop", stop_order, chk)
